@@ -28,6 +28,8 @@ CHECKS = {
          "Writer.Statistics after Close, the statistics record decoded by the reference decoder and Reader.Info must equal the true aggregates of the call log; Info listings must equal the summary groups the file keeps.", TB, "DESIGN §4 C08"),
  "C09": (FE, "crash-point enumeration: every truncation position of every small written file, read by lexer and non-indexed iterator",
          "Every prefix 0..len-1 of files (unchunked/none/zstd/lz4, CRC on/off, attachments and metadata between chunks) must read as a prefix of the original records, end with EOF or an error, never panic, and contain every message of every chunk completely before the cut.", TB, "DESIGN §4 C09"),
+ "C10": (MC, "bounded-exhaustive structured mutation (position-exhaustive depth 1 + structural families) through 11 decode entry points in isolated worker processes",
+         "For every byte offset of the seed files and every width 1/2/4/8 each hostile value (and v-1, v+1) is written; records are duplicated/removed/swapped; compression names of every length; near-2^31 lengths; every mutant runs through the lexer under 5 option sets (incl. every Parse*), Info+ChannelCounts, 4 iterator modes and random access inside workers with capped address space, stack, per-call stall deadline and allocation accounting: outcome must be ok or error.", TB + " quick defers mutants that legitimately allocate up to the documented 2 GiB ceiling to thorough.", "DESIGN §4 C10"),
  "C11": (MC, "exhaustive enumeration of unknown-record insertion positions and record tails on reference-encoded files, differential against the un-augmented file",
          "An unknown record (4 opcodes x 4 lengths) at every legal position (top level, inside chunks, summary boundaries), at all positions at once, and tails on every extensible record kind must leave everything the Go readers report unchanged.", TB, "DESIGN §4 C11"),
  "C12": (MC, "exhaustive enumeration of legal layouts of fixed logical contents by the reference encoder, read by all Go readers",
